@@ -211,7 +211,7 @@ FIELD_SPEC = "harness/src/fieldspec.rs + fmt.rs: my reading of the documented fo
 FIELD_RULE = ("all 114 field types (89 structs, 25 option enums) x contents generated from the documented format: conforming contents at minimum / "
               "maximum / random component lengths with every optional part present, absent and random; one-node violations (max+1, exact+-1, one "
               "line too many, invalid date / time / offset / BIC / currency / amount); 32 string mutants per base content (appended, deleted, "
-              "replaced characters; extra, blank and CRLF lines; leading / trailing line breaks; lower case; tab; non-ASCII of 2, 3 and 4 "
+              "replaced characters; every prefix of valid contents; extra, blank and CRLF lines; leading / trailing line breaks; lower case; tab; non-ASCII of 2, 3 and 4 "
               "bytes; Arabic-Indic digit; slashes; duplication; empty) and random strings over a SWIFT and a non-SWIFT alphabet. "
               "Non-trivial = documented or accepted; distinct = (field type, content). ")
 
